@@ -59,11 +59,18 @@ fn decode(t: &mut Tape) -> Option<Scenario> {
 fn worker_main(git_dir: &str, tape_hex: &str) -> ! {
     // never burn CPU without bound should a transaction not return (termination is C17's matter)
     unsafe {
+        // die with the tracer (strace), bounded CPU, memory and wall-clock time
+        libc::prctl(libc::PR_SET_PDEATHSIG, libc::SIGKILL as libc::c_ulong);
         let lim = libc::rlimit {
             rlim_cur: 30,
             rlim_max: 30,
         };
         libc::setrlimit(libc::RLIMIT_CPU, &lim);
+        let mem = libc::rlimit {
+            rlim_cur: 1 << 30,
+            rlim_max: 1 << 30,
+        };
+        libc::setrlimit(libc::RLIMIT_AS, &mem);
         libc::alarm(600);
     }
     let tape = unhex(tape_hex).unwrap_or_default();
@@ -126,6 +133,15 @@ fn strace_cmd(
     cmd.stdin(std::process::Stdio::null())
         .stdout(std::process::Stdio::null())
         .stderr(std::process::Stdio::null());
+    // strace dies with this process; the worker dies with strace (PR_SET_PDEATHSIG in the worker) and is bounded by
+    // RLIMIT_CPU / RLIMIT_AS / alarm on its own
+    unsafe {
+        use std::os::unix::process::CommandExt;
+        cmd.pre_exec(|| {
+            libc::prctl(libc::PR_SET_PDEATHSIG, libc::SIGKILL as libc::c_ulong);
+            Ok(())
+        });
+    }
     cmd.status()
 }
 
